@@ -134,7 +134,11 @@ func (e *env) pool(next func() []rt.Params, timeout func(n int) time.Duration, s
 
 // runOne runs a single job in its own process.
 func (e *env) runOne(p rt.Params) (*rt.Result, batchOutcome) {
-	o := e.runBatch([]rt.Params{p}, 900*time.Second)
+	return e.runOneT(p, 300*time.Second)
+}
+
+func (e *env) runOneT(p rt.Params, timeout time.Duration) (*rt.Result, batchOutcome) {
+	o := e.runBatch([]rt.Params{p}, timeout)
 	if len(o.results) == 1 {
 		return &o.results[0], o
 	}
